@@ -884,8 +884,14 @@ class FnTranslator:
                 self.bind_target(tg, val, env, pre)
         return self.wrap_pre(pre, rest(env))
 
+    def in_loop(self, st):
+        return any(isinstance(n, (ast.For, ast.While, ast.ListComp)) and any(m is st for m in ast.walk(n))
+                   for n in ast.walk(self.node))
+
     def opaque_assign(self, st, call, targets, env, rest):
-        if st not in self.node.body:
+        # third round, `opaque_in_branches`: also inside `if` branches (never inside a loop, where the result could
+        # depend on the iteration): the assumption is the same -- were the call evaluated, it would return these values
+        if st not in self.node.body and not (self.cfg.get("opaque_in_branches") and not self.in_loop(st)):
             self.fail(st, "opaque call outside the top level of the function body")
         shapes = self.opaque[ast.unparse(call.func if isinstance(call, ast.Call) else call)]
         if len(targets) != 1:
@@ -1528,6 +1534,12 @@ class FnTranslator:
             elif isinstance(n, ast.Call) and not n.args and not n.keywords and isinstance(n.func, ast.Attribute):
                 path.append(n.func.attr + "()")
                 n = n.func.value
+            elif self.cfg.get("record_str_keys") and isinstance(n, ast.Subscript) and isinstance(n.slice, ast.Constant) \
+                    and isinstance(n.slice.value, str) and n.slice.value.isidentifier():
+                # third round: `rec.attrs["padding"]` -- a look-up with a literal string key is a path segment (assumed
+                # present: a missing key would raise `KeyError`, which is not modelled)
+                path.append("item_" + n.slice.value)
+                n = n.value
             else:
                 break
         if isinstance(n, ast.Name) and n.id in env.d and env.d[n.id] is not None and env.d[n.id][1][0] == "R" and path:
